@@ -96,6 +96,8 @@ class Interp:
                 self.env[st.target.id] = self.binop(st.op, cur, self.ev(st.value))
                 return None
             arr, col = self.colref(st.target)
+            if col not in self.arrays[arr] and arr not in getattr(self, 'zeroed', set()):
+                raise Abort(f'augmented store into unset column {arr}[:, {col}] of an uninitialised array')
             cur = self.arrays[arr].get(col, const(0))
             self.arrays[arr][col] = self.trunc(self.binop(st.op, cur, self.ev(st.value)), arr)
             return None
@@ -132,6 +134,9 @@ class Interp:
                 if w is None:
                     raise Abort(f'array dtype {dtxt} not modelled')
                 self.arrays[name] = {}
+                self.zeroed = getattr(self, 'zeroed', set())
+                if last == 'zeros':
+                    self.zeroed.add(name)
                 self.width[name] = w
                 self.env[name] = ('ARRAY', name)
                 return True
@@ -199,6 +204,8 @@ class Interp:
                 if base.id in self.arrays:
                     arr, col = self.colref(e)
                     if col not in self.arrays[arr]:
+                        if arr in getattr(self, 'zeroed', set()):
+                            return const(0, self.width[arr])
                         raise Abort(f'read of unset column {arr}[:, {col}]')
                     return self.arrays[arr][col]
             b = self.ev(base)
